@@ -99,6 +99,9 @@ var FaultArgCorpus = []Op{
 	{Name: "arg-nested-panic", Query: `{ search(f:{blob:"BLOB_PANIC"}) { __typename } users { id } }`},
 	{Name: "arg-var-err", Query: `query($b: Blob!){ echo(b:$b) hello }`, Vars: map[string]any{"b": "BLOB_ERR"}},
 	{Name: "arg-var-panic", Query: `query($f: Filter){ search(f:$f) { __typename } hello }`, Vars: map[string]any{"f": map[string]any{"blob": "BLOB_PANIC"}}},
+	{Name: "arg-required-input-err", Query: `{ find(f:{nested:{blob:"BLOB_ERR"}}) { __typename } maybe }`},
+	{Name: "arg-required-input-err2", Query: `{ a: find(f:{q:"ok"}) { __typename } b: find(f:{blob:"BLOB_ERR"}) { __typename } hello }`},
+	{Name: "arg-required-input-var", Query: `query($f: Filter!){ find(f:$f) { __typename } hello }`, Vars: map[string]any{"f": map[string]any{"nested": map[string]any{"blob": "BLOB_ERR"}}}},
 	{Name: "arg-ok-and-bad", Query: `{ a: echo(b:"fine") b: echo(b:"BLOB_ERR") c: echo(b:"BLOB_PANIC") }`},
 }
 
